@@ -70,7 +70,8 @@ def gen_case(seed, run, tier):
     maxcoef = rs.choice([1, 2, 3])
     p_inact = rs.choice([0.0, 0.15, 0.3])
     p_cat = rs.choice([0.0, 0.15, 0.3])
-    nbank = rs.randint(4, 14)
+    deep = tier == "thorough"
+    nbank = rs.randint(4, 20 if deep else 14)
     fault_rate = rs.choice([0.0, 0.05, 0.15, 0.3])
     n_islands = rs.choice([1, 1, 2, 3, 4])  # partition keys so that several components exist
     rs.shuffle(keys_shuffled := list(keys))
@@ -139,7 +140,7 @@ def gen_case(seed, run, tier):
     mbank = M.Bank(bank)
 
     # ---- operations, proposed against the model only
-    nops = rs.randint(3, 20)
+    nops = rs.randint(3, 36 if deep else 20)
     enabled_q = [q for q in ("categorize", "equilibria", "participation", "effect", "array", "index", "varied", "eq")
                  if rs.random() < 0.7]
     if formula_mode:
